@@ -9,7 +9,7 @@ A setter body is a list of events in source order (generated: Gen/SetterEvents.l
 -/
 namespace Cherab.Subscription
 
-inductive Tgt | attr | value
+inductive Tgt | attr | value | old
   deriving DecidableEq, Repr
 
 inductive Ev
@@ -25,23 +25,25 @@ structure St where
 
 def addN (l : List Nat) (p : Nat) : List Nat := if l.contains p then l else l ++ [p]
 
-/-- the provider an event talks to: the attribute's present content, or the object being installed -/
-def target (s : St) (p : Nat) : Tgt → Option Nat
+/-- the provider an event talks to: the attribute's present content, the object being installed, or what the attribute
+held when the setter was entered (a local alias `previous = self._x`) -/
+def target (s : St) (p : Nat) (old : Option Nat) : Tgt → Option Nat
   | .attr => s.cur
   | .value => some p
+  | .old => old
 
 /-- one statement of the setter body, installing `p` (`if self._x:` guards make a `none` target a no-op) -/
-def ev (p : Nat) (s : St) : Ev → St
-  | .remove t => match target s p t with
+def ev (p : Nat) (old : Option Nat) (s : St) : Ev → St
+  | .remove t => match target s p old t with
       | some q => { s with subs := s.subs.erase q }
       | none => s
-  | .add t => match target s p t with
+  | .add t => match target s p old t with
       | some q => { s with subs := addN s.subs q }
       | none => s
   | .assign => { s with cur := some p }
 
 /-- a whole setter call -/
-def setter (evs : List Ev) (s : St) (p : Nat) : St := evs.foldl (ev p) s
+def setter (evs : List Ev) (s : St) (p : Nat) : St := evs.foldl (ev p s.cur) s
 
 /-- a history of assignments -/
 def run (evs : List Ev) (s : St) (ps : List Nat) : St := ps.foldl (setter evs) s
@@ -56,6 +58,8 @@ instance (s : St) : Decidable (SubInv s) := by unfold SubInv; infer_instance
 /-- the three source orders that are correct -/
 def canonical (evs : List Ev) : Bool :=
   evs == [.remove .attr, .assign, .add .attr] || evs == [.remove .attr, .assign, .add .value] ||
-  evs == [.remove .attr, .add .value, .assign]
+  evs == [.remove .attr, .add .value, .assign] ||
+  evs == [.remove .old, .assign, .add .attr] || evs == [.remove .old, .assign, .add .value] ||
+  evs == [.remove .old, .add .value, .assign]
 
 end Cherab.Subscription
